@@ -27,7 +27,7 @@ pub open spec fn g_init<T>() -> G<T> { G { dn: dn_init(), up: up_init() } }
 //@invpart pull @C14 demand conservation: every sink Pull is carried upstream while items remain
 pub open spec fn inv_safe<T>(h: Heap, g: G<T>, c: Cap) -> bool {
     &&& h.taken <= c.max
-    &&& (g.up.phase == Up::Live ==> h.source_talkback is Some)
+    &&& (up_greeted(g.up.phase) ==> h.source_talkback is Some)
 }
 pub open spec fn inv_proto<T>(h: Heap, g: G<T>, c: Cap) -> bool {
     &&& (g.up.phase == Up::Live ==> g.dn.phase == Dn::Live)
